@@ -31,7 +31,7 @@ func TMerc(this *SR) (forward, inverse Transformer, err error) {
 				return math.NaN(), math.NaN(), fmt.Errorf("in proj.TMerc forward: b == 0")
 			}
 			x = 0.5 * this.A * this.K0 * math.Log((1+b)/(1-b))
-			con = math.Acos(cos_phi * math.Cos(delta_lon) / math.Sqrt(1-b*b))
+			con = math.Atan2(math.Abs(sin_phi), cos_phi*math.Cos(delta_lon))
 			if lat < 0 {
 				con = -con
 			}
@@ -67,7 +67,8 @@ func TMerc(this *SR) (forward, inverse Transformer, err error) {
 			var g = 0.5 * (f - 1/f)
 			var temp = this.Lat0 + y/(this.A*this.K0)
 			var h = math.Cos(temp)
-			con = math.Sqrt((1 - h*h) / (1 + g*g))
+			var sin_temp = math.Sin(temp)
+			con = math.Sqrt(sin_temp * sin_temp / (1 + g*g))
 			lat = asinz(con)
 			if temp < 0 {
 				lat = -lat
